@@ -8,7 +8,8 @@ from . import lib
 
 DRV = "drv_parse"
 HEADS = ["blte", "blte_enc_header", "encoding", "archive_index", "root", "install", "download", "size", "tvfs",
-         "patch_archive", "patch_index", "zbsdiff", "local_idx", "lru", "shmem", "dirnames"]
+         "patch_archive", "patch_index", "zbsdiff", "local_idx", "lru", "shmem", "dirnames", "zbsdiff_ctl",
+         "espec", "bpsv", "build_config", "cdn_config", "patch_config", "product_config", "keyring_config", "mime", "build_info"]
 BFMTS = ["install", "download", "size", "archive_index", "encoding", "root", "tvfs", "patch_archive", "patch_index",
          "bpsv", "build_config", "cdn_config", "keyring_config"]
 
@@ -51,7 +52,7 @@ def gen_vectors(ctx, kd):
     ctx.cov["transitions"] += r["generated"]
     ctx.stage("mc", module="MC_ParserGuard", design="ideal", distinct_states=r["distinct"], vectors=r["counts"]["PROGRAM"], wall_s=r["wall_s"])
     # the model with the guards of the known findings skipped must break the property exactly there
-    consts2 = dict(consts, KnownDeviations=lib.tla_set(kd), W=1, FullMax=0, Fmts=tla_strs(HEADS + ["blte_decompress", "zbsdiff_apply"]))
+    consts2 = dict(consts, KnownDeviations=lib.tla_set(kd), W=2, FullMax=0, Fmts=tla_strs(HEADS + ["blte_decompress", "zbsdiff_apply", "lru_ops"]))
     cfg2 = ctx.path("mc_pg_dev.cfg")
     lib.write_cfg(cfg2, consts2, "MCInit", "MCNext", invariants=["FoldAgrees", "Witness"])
     r2 = lib.tlc(ctx, "MC_ParserGuard", cfg2, timeout=900)
@@ -81,7 +82,7 @@ def gen_bprogs(ctx):
 class Run:
     """One invocation of the driver; remembers its arguments so that a single job can be regenerated (replay files)."""
 
-    def __init__(self, ctx, name, vectors=None, bprogs=None, mutations=0, fixtures=True, formats=None, timeout=30):
+    def __init__(self, ctx, name, vectors=None, bprogs=None, mutations=0, fixtures=True, formats=None, timeout=30, bombs=False):
         self.ctx, self.name = ctx, name
         self.trace = ctx.path(f"trace_{name}.ndjson")
         self.jobs = jobs()
@@ -94,6 +95,8 @@ class Run:
             self.args += ["--mutations", mutations]
         if not fixtures:
             self.args += ["--no-fixtures"]
+        if bombs:
+            self.args += ["--bombs"]
         if formats:
             self.args += ["--formats", ",".join(formats)]
         self.env = {"VERIF_SEED": ctx.seed, "VERIF_REPO": lib.REPO}
